@@ -25,7 +25,7 @@ REQUIRED = {'quick': {'landed': 150, 'land:except_handler': 3, 'land:finally': 5
 
 _ACC = ['is_alive', 'has_error', 'result', 'error', 'wait0', 'terminate0']
 _observe = st.lists(st.sampled_from(_ACC), min_size=4, max_size=8)
-_items = st.lists(st.sampled_from([1, 2, 3, 'POISON']), max_size=3)
+_items = st.lists(st.sampled_from([1, 2, 3, 'POISON', 'UNPICKLABLE']), max_size=3)
 
 
 def examples(tier):
@@ -137,7 +137,7 @@ def expected(case):
                 errs.append(None)
     elif sc == 'persist':
         items = case.get('items', [])
-        pre = IC.expected_items(items)
+        pre = [x for x in items[:items.index('POISON')]] if 'POISON' in items else list(items)     # every item before a poison one is processed
         poison = 'POISON' in items
         if poison:
             errs.append({'exc': 'ValueError', 'args': repr(('poison item',))})
